@@ -340,9 +340,27 @@ class CallMixin:  # pylint:disable=too-many-public-methods
                     return int(args[0])
                 except ValueError:
                     self.raise_("ValueError", "invalid literal for int()")
-            if args and isinstance(args[0], int):
+            if args and isinstance(args[0], (int, float)):
                 return int(args[0])
+            if not args:
+                return 0
+            if isinstance(args[0], Opaque) and args[0].kind in ("builtins.int", "builtins.float", None):
+                key_ = ("int()", args[0].oid)
+                if key_ not in self.attr_memo:
+                    self.attr_memo[key_] = Opaque(f"int({args[0].label})", kind="builtins.int")
+                return self.attr_memo[key_]
             self.unsupported(node, frame, f"int({args!r})")
+        if name == "builtins.float":
+            if args and isinstance(args[0], (int, float)):
+                return float(args[0])
+            if args and isinstance(args[0], str):
+                try:
+                    return float(args[0])
+                except ValueError:
+                    self.raise_("ValueError", "could not convert string to float")
+            if args and isinstance(args[0], Opaque):
+                return Opaque(f"float({args[0].label})", kind="builtins.float")
+            self.unsupported(node, frame, f"float({args!r})")
         if name == "builtins.bool":
             return self.truth(args[0]) if args else False
         if name == "builtins.list":
@@ -541,6 +559,8 @@ class CallMixin:  # pylint:disable=too-many-public-methods
                 return v.fields[attr]
             if attr == "__class__":
                 return ClassVal(v.cls)
+            if v.cls == "lark.Token" and attr in ("start_pos", "line", "column", "end_line", "end_column", "end_pos"):
+                return None  # position attributes every lark Token has (None unless positions are propagated)
             if attr == "__module__" and v.cls in self.model.classes:
                 return self.model.classes[v.cls].module.name
             cls = self.model.classes.get(v.cls)
@@ -1247,6 +1267,8 @@ class CallMixin:  # pylint:disable=too-many-public-methods
             r = args[1] if len(args) > 1 else kwargs.get("r")
             fn_ = _it.combinations if short == "itertools.combinations" else _it.permutations
             return [tuple(t) for t in fn_(seqs[0], r)]
+        if name == "asyncio.wait_for":
+            return args[0]  # no timeout ever fires in the abstract run (time is not modelled; C12.noapi names the construct)
         if name in ("asyncio.ensure_future", "asyncio.create_task", "asyncio.shield"):
             if isinstance(args[0], CoroVal):
                 args[0].task_ctx = self.snapshot_context()  # a task runs in a copy of the context taken at its creation
